@@ -435,6 +435,12 @@ class Consumer(object):
         # Are we waiting for a request to come back?
         if self._request_d:
             self._request_d.cancel()
+            if self._request_d is not None and self._request_d.called:
+                # The response had already arrived and was waiting for the
+                # processor to finish the previous block. It is dropped with
+                # that block (below); forget the request, or a restarted
+                # consumer would wait for it forever and never fetch.
+                self._request_d = None
         # Are we working our way through a block of messages?
         if self._msg_block_d:
             # Need to add a cancel handler...
